@@ -361,6 +361,7 @@ func c13Run(c *core.C, idx int) {
 		}
 		c13Archives(ctx, c, w, kinds, p, info)
 		c13Misc(ctx, c, w, p, info)
+		c13Prefix(ctx, c, w, p, info)
 		// restore the inside for the next string
 		c13ResetRoot(w)
 		c13ResetMemInside(w)
@@ -649,7 +650,7 @@ func init() {
 		Level: "exploration",
 		Rule: "exhaustive enumeration of path strings over the component alphabet {a, b.proto, ., .., '', a.b, ...} joined by '/', with and without a leading '/', " +
 			"1..4 components (quick) / 1..6 (thorough), plus random strings of 5..10 (quick) / 7..14 (thorough) components; every string is driven through get/stat/walk/isempty/put/put-atomic/copypath/delete/deleteall, " +
-			"untar/unzip (strip 0..2), NewFileNode, filelock and the protoplugin response writer on 16 bucket kinds; a case is distinct/non-trivial per distinct path string; " +
+			"untar/unzip (strip 0..2), NewFileNode, filelock and the protoplugin response writer on 16 bucket kinds, and additionally used as the MAPPING PREFIX of 9 views stacked on a view of the root (get/stat/walk/put/delete/deleteall of harmless names through them); a case is distinct/non-trivial per distinct path string; " +
 			"'shape' counts distinct (absolute, levels climbed, remaining components) classes; second part: CLI boundary cases (config-supplied directories, --path values, plugin names)",
 		Assumptions: []string{
 			"lexical escape model (model.AnalyzePath) is the definition of 'escapes'; symlink-based escapes are out of scope of the statement (lexical components only)",
@@ -676,6 +677,6 @@ func init() {
 				c13CLI(c, idx-n-extra)
 			}
 		},
-		Required: []string{"paths", "escaping_paths", "outside_snapshots", "archive_ops", "archive_link_ops", "rejections_checked", "cli_runs", "cli_escaping_runs", "sibling_paths"},
+		Required: []string{"paths", "prefix_views", "escaping_paths", "outside_snapshots", "archive_ops", "archive_link_ops", "rejections_checked", "cli_runs", "cli_escaping_runs", "sibling_paths"},
 	})
 }
